@@ -26,6 +26,16 @@ func RepoDir() string {
 	return "/repo"
 }
 
+// OutDir is where evidence and replay artefacts are written: VerifDir() unless
+// VERIF_OUT is set (seed evaluations against a patched copy must not overwrite the
+// evidence of the real tree).
+func OutDir() string {
+	if d := os.Getenv("VERIF_OUT"); d != "" {
+		return d
+	}
+	return VerifDir()
+}
+
 func VerifDir() string {
 	if d := os.Getenv("VERIF_DIR"); d != "" {
 		return d
